@@ -310,7 +310,12 @@ class TU:
                         if v.startswith('"') and v.endswith('"'):
                             form, sp = "q", v[1:-1]
                         elif v.startswith("<") and v.endswith(">"):
-                            form, sp = "a", v[1:-1]
+                            # the tokens between < and > are macro-expanded before the name is formed
+                            def _rescan(mo, depth=[0]):
+                                nm = mo.group(0)
+                                val = self.macros.get(nm)
+                                return nm if val is None or not re.fullmatch(r"[\w./+-]*", val) else val
+                            form, sp = "a", re.sub(r"[A-Za-z_]\w*", _rescan, v[1:-1])
                         else:
                             raise InvalidWorld(f"computed include value {v!r}")
                     p = self.resolve(sp, form, curdir)
